@@ -193,11 +193,18 @@ func (g *Gen) integer(p per.Params) int64 {
 		lb, ub := *p.ValueLB, *p.ValueUB
 		if p.ValueExt && !g.NoExt && r.Intn(6) == 0 { // outside the extension root
 			g.feat("int-extension")
-			switch r.Intn(3) {
+			switch r.Intn(5) {
 			case 0:
 				return ub + 1
 			case 1:
 				return ub + 1 + r.Int63n(1<<20)
+			case 2, 3: // the 2's-complement octet count changes at 2^(8k-1) and the unsigned one at 2^(8k): both sides of each
+				for try := 0; try < 8; try++ {
+					v := int64(1)<<uint(8*r.Intn(6)+7+r.Intn(2)) + int64(r.Intn(3)) - 1
+					if v > ub {
+						return v
+					}
+				}
 			}
 			return ub + 1 + r.Int63n(1<<40)
 		}
